@@ -132,7 +132,13 @@ pub fn thread_workload(seed: u64, n_threads: usize, calls_per_thread: usize, sma
     let mut scripts: Vec<Vec<(Call, usize, String)>> = Vec::new();
     for t in 0..n_threads {
         let mut rng = Rng::derive(seed, "C14-threads", t as u64);
-        let sc = make_script(&mut rng, &ls, calls_per_thread, small);
+        let mut sc = make_script(&mut rng, &ls, calls_per_thread, small);
+        // cold start: the very first overlapping calls on the never-used shared interpreters are compound words of the
+        // three languages that carry a splitter automaton
+        let cold = ["de", "nl", "it"][t % 3];
+        let li = LANGS.iter().position(|c| *c == cold).unwrap();
+        sc.insert(0, Call { lang: li, kind: 0, text: spell::cardinal(cold, 21 + (t as u64 % 7) * 11), t: 0.0 });
+        sc.insert(1, Call { lang: li, kind: 1, text: format!("{} {}", spell::cardinal(cold, 345), ls.lexicon(cold).fillers[0]), t: 0.0 });
         // sequential reference from interpreters that are never shared
         let refs: Vec<(Call, usize, String)> = sc
             .into_iter()
@@ -195,6 +201,74 @@ pub fn thread_workload(seed: u64, n_threads: usize, calls_per_thread: usize, sma
     rep.evaluations += tot;
     for i in 0..tot.min(100_000) {
         rep.distinct.insert(hash_bytes(&[b"thr", &seed.to_le_bytes(), &i.to_le_bytes()]));
+    }
+}
+
+/// Contention phase: few keys, many threads, short calls of mixed kinds on ONE shared interpreter per splitter language
+/// (compound words, simple words, non-numbers alternate, so that any per-interpreter scratch or memo is hammered).
+pub fn contention_workload(seed: u64, n_threads: usize, iters: usize, rep: &mut Report) {
+    for code in ["de", "nl", "it", "fr", "en"] {
+        let shared: Arc<Box<dyn Api>> = Arc::new(if seed % 2 == 0 { api::facade(code) } else { api::concrete(code) });
+        let private = api::concrete(code);
+        let info = spell::info(code);
+        let mut texts: Vec<String> = vec![
+            spell::cardinal(code, 21),
+            spell::cardinal(code, 7),
+            spell::cardinal(code, 345),
+            "xyz".to_string(),
+            spell::cardinal(code, 1_234_567),
+            info.conj.to_string(),
+            spell::cardinal(code, 80),
+            format!("{} {}", spell::cardinal(code, 12), spell::cardinal(code, 12)),
+        ];
+        for o in spell::ordinals(code, 22).into_iter().take(2) {
+            texts.push(o.text);
+        }
+        let expected: Vec<(String, String)> = texts.iter().map(|t| (format!("{:?}", private.validate(t)), private.replace(t, 0.0))).collect();
+        let texts = Arc::new(texts);
+        let expected = Arc::new(expected);
+        let barrier = Arc::new(std::sync::Barrier::new(n_threads));
+        let mut handles = Vec::new();
+        for t in 0..n_threads {
+            let (shared, texts, expected, barrier) = (shared.clone(), texts.clone(), expected.clone(), barrier.clone());
+            handles.push(std::thread::spawn(move || {
+                let mut bad: Option<(usize, String, String)> = None;
+                barrier.wait();
+                for i in 0..iters {
+                    let k = (i * 7 + t * 3) % texts.len();
+                    if i % 2 == 0 {
+                        let got = format!("{:?}", shared.validate(&texts[k]));
+                        if got != expected[k].0 && bad.is_none() {
+                            bad = Some((k, expected[k].0.clone(), got));
+                        }
+                    } else {
+                        let got = shared.replace(&texts[k], 0.0);
+                        if got != expected[k].1 && bad.is_none() {
+                            bad = Some((k, expected[k].1.clone(), got));
+                        }
+                    }
+                }
+                bad
+            }));
+        }
+        for (t, h) in handles.into_iter().enumerate() {
+            match h.join() {
+                Ok(Some((k, want, got))) => rep.violation(
+                    "threads:contention",
+                    jobj! {"kind" => "threads", "thread" => t, "call" => jobj!{"lang" => code, "call" => 0, "text" => texts[k].as_str(), "threshold" => "0"}},
+                    format!("contention phase [{}]: thread {} calling on {:?} through a shared interpreter got {:?}; an unshared interpreter gives {:?}", code, t, texts[k], got, want),
+                ),
+                Ok(None) => {}
+                Err(_) => {
+                    let (loc, msg) = crate::core::take_last_panic().unwrap_or(("?".into(), "?".into()));
+                    rep.violation("threads:panic", jobj! {"kind" => "threads-panic"}, format!("contention phase [{}]: a thread sharing the interpreter panicked at {}: {}", code, loc, msg));
+                }
+            }
+        }
+        let tot = (n_threads * iters) as u64;
+        rep.add("contention_calls", tot);
+        rep.evaluations += tot;
+        rep.distinct.insert(hash_bytes(&[b"contention", code.as_bytes(), &seed.to_le_bytes()]));
     }
 }
 
@@ -335,6 +409,7 @@ pub fn worker_threads(args: &[String]) -> i32 {
     let out = args.get(4).cloned().unwrap_or_default();
     let mut rep = Report::new();
     thread_workload(seed, nt, cpt, small, &mut rep);
+    contention_workload(seed, nt, cpt.min(4000), &mut rep);
     legs::write_child_report(&out, &rep)
 }
 
@@ -540,16 +615,45 @@ fn silence_leg(ctx: &Ctx, rep: &mut Report) {
     }
 }
 
+/// run a part of the workload; a library panic escaping from it is a violation with the case in progress as witness
+fn guarded(rep: &mut Report, what: &str, f: impl FnOnce(&mut Report)) {
+    let res = std::panic::catch_unwind(std::panic::AssertUnwindSafe(|| {
+        let mut r = Report::new();
+        f(&mut r);
+        r
+    }));
+    match res {
+        Ok(r) => rep.merge(r),
+        Err(_) => {
+            let (loc, msg) = crate::core::take_last_panic().unwrap_or(("?".into(), "?".into()));
+            if loc.contains("harness/src") {
+                rep.harness_errors.push(format!("harness panic at {}: {}", loc, msg));
+            } else {
+                rep.violation(&format!("panic:{}", loc), jobj! {"kind" => "panic", "during" => what, "panic_location" => loc.as_str(), "panic_message" => msg.as_str()}, format!("the library panicked at {} ({}) during the {} workload", loc, msg, what));
+            }
+        }
+    }
+}
+
 pub fn run(ctx: &Ctx) -> Outcome {
     let mut rep = Report::new();
     let q = ctx.quick();
-    history_workload(ctx, &mut rep, ctx.n(400_000, 6_000_000) as usize, if q { 20 } else { 50 });
+    guarded(&mut rep, "history", |r| history_workload(ctx, r, ctx.n(400_000, 6_000_000) as usize, if q { 20 } else { 50 }));
     let nt = ctx.threads.max(4);
-    for round in 0..(if q { 2 } else { 6 }) {
-        thread_workload(ctx.seed.wrapping_add(round), nt, ctx.n(6_000, 60_000) as usize, false, &mut rep);
+    // several rounds: every round starts from never-used shared interpreters (cold-start races)
+    for round in 0..(if q { 8 } else { 24 }) {
+        guarded(&mut rep, "threads", |r| thread_workload(ctx.seed.wrapping_add(round), nt, ctx.n(1_500, 15_000) as usize, false, r));
+    }
+    for round in 0..(if q { 4 } else { 16 }) {
+        guarded(&mut rep, "contention", |r| contention_workload(ctx.seed.wrapping_add(round), nt, ctx.n(12_000, 60_000) as usize, r));
     }
     build_probe(ctx, &mut rep);
     silence_leg(ctx, &mut rep);
+    // Miri: data races and UB on the shared interpreters are visible without volume (2 seeded schedules in the quick
+    // tier, 8 in the thorough tier)
+    if q {
+        miri_leg(ctx, &mut rep, 2);
+    }
     if !q {
         sanitizer_leg(ctx, &mut rep, "tsan", "T2N_LEG_TSAN", "ThreadSanitizer", 16, 3000, &[("TSAN_OPTIONS", "halt_on_error=0 report_signal_unsafe=0")]);
         sanitizer_leg(ctx, &mut rep, "asan", "T2N_LEG_ASAN", "AddressSanitizer", 16, 6000, &[("ASAN_OPTIONS", "halt_on_error=1:abort_on_error=0:detect_leaks=0")]);
